@@ -120,6 +120,19 @@ const (
 	kNested = 3 // [3] ++ root: a nested trie of the same kind
 )
 
+// transient failures of a value object's Resolve (a requester that returns an error, as a
+// store read error inside contract.Resolve would): seeded ordinals of the kData Resolve calls
+// of the current run fail once
+type objFaults struct {
+	calls      int
+	failAt     map[int]bool
+	fired      int
+	inDelivery int // kData Resolve calls inside the current OnData
+	firedAfter int // ... that had succeeded when the failure fired
+}
+
+var curObjFaults *objFaults
+
 type c20Obj struct {
 	raw   []byte
 	dbase db.Database
@@ -158,6 +171,16 @@ func (o *c20Obj) Resolve(b merkle.Builder) error {
 	}
 	switch o.raw[0] {
 	case kData:
+		if f := curObjFaults; f != nil {
+			f.calls++
+			f.inDelivery++
+			if f.failAt[f.calls] {
+				delete(f.failAt, f.calls)
+				f.fired++
+				f.firedAfter = f.inDelivery - 1
+				return fmt.Errorf("c20: simulated transient read failure in Resolve")
+			}
+		}
 		bk, err := o.dbase.GetBucket(db.BytesByHash)
 		if err != nil {
 			return err
@@ -401,6 +424,31 @@ func (w *world) kids(bk, p int) []ref {
 type srcTrie struct {
 	root []byte
 	kv   map[string][]byte // key -> value bytes as stored in the trie
+	raw  bool              // a plain bytes trie (NewMutable/NewImmutable) inside an object-mode state
+}
+
+// genBytesTrie builds a plain bytes trie in the source of an object-mode run: a root of
+// ANOTHER trie kind on the same builder.  Its values never look like object references
+// (first byte >= 4), so the reference table of the run stays independent of the trie kind.
+func (s *source) genBytesTrie(r *rand.Rand, n int) *srcTrie {
+	t := &srcTrie{kv: map[string][]byte{}, raw: true}
+	m := trie_manager.NewMutable(s.d, nil)
+	for i := 0; i < n; i++ {
+		k := genKey(r)
+		v := randBytes(r, 1+r.Intn(60))
+		v[0] = byte(4 + r.Intn(252))
+		if _, err := m.Set(k, v); err != nil {
+			panic(err)
+		}
+		t.kv[string(k)] = v
+	}
+	ss := m.GetSnapshot()
+	if err := ss.Flush(); err != nil {
+		panic(err)
+	}
+	t.root = append([]byte{}, ss.Hash()...)
+	s.tries[string(t.root)] = t
+	return t
 }
 
 type source struct {
@@ -601,7 +649,10 @@ type runner struct {
 	src *source
 
 	objMode, raw, spMode bool
-	flushFault           bool // the first Flush(true) meets one transient write error and is repeated
+	flushFault           bool         // the first Flush(true) meets one transient write error and is repeated
+	rawRoots             map[int]bool // hash ids of roots that are plain bytes tries
+	partial              map[int]bool // hashes whose delivery failed half-way (stored in some bucket, still outstanding)
+	startAfterFail       func()       // a root of another trie kind, to be started right after the next failed delivery
 
 	target  *recDB
 	builder merkle.Builder
@@ -740,6 +791,17 @@ func (rn *runner) probe(x ref) (newly bool) {
 // the property, checked directly after every call
 func (rn *runner) checkDoneComplete(where string) {
 	un := rn.builder.UnresolvedCount()
+	if un != 0 && rn.missing == 0 && len(rn.partial) > 0 {
+		// a delivery that failed half-way has stored its value but (rightly) keeps its request:
+		// the store may be complete while that request is still outstanding
+		only := true
+		for _, q := range rn.requests() {
+			only = only && rn.partial[rn.w.hid(q.key)]
+		}
+		if only {
+			return
+		}
+	}
 	if (un == 0) != (rn.missing == 0) {
 		rn.failf("%s: UnresolvedCount=%d but %d of %d nodes of the trusted state are not in the target", where, un, rn.missing, len(rn.closure))
 	}
@@ -771,7 +833,7 @@ func (rn *runner) start(x ref, direct bool) {
 			if v, _ := bk.Get(h); v == nil {
 				rn.builder.RequestData(bucketIDs[x.bk], h, plainRequester{})
 			}
-		case rn.objMode:
+		case rn.objMode && !rn.rawRoots[x.hid]:
 			trie_manager.NewImmutableForObject(rn.builder.Database(), h, objType).Resolve(rn.builder)
 		default:
 			trie_manager.NewImmutable(rn.builder.Database(), h).Resolve(rn.builder)
@@ -806,6 +868,11 @@ func (rn *runner) deliver(p int, bid db.BucketID, kind string) {
 		}
 	}
 	faultsB, writesB := rn.target.faults, rn.target.writes
+	objFiredB := 0
+	if curObjFaults != nil {
+		curObjFaults.inDelivery = 0
+		objFiredB = curObjFaults.fired
+	}
 	var err error
 	if perr := hxlib.Catch(func() { err = rn.builder.OnData(bid, d) }); perr != "" {
 		rn.failf("OnData panicked on a %s payload: %s", kind, perr)
@@ -826,10 +893,27 @@ func (rn *runner) deliver(p int, bid db.BucketID, kind string) {
 			}
 		}
 	}
-	if rn.target.faults > faultsB {
-		// a database write inside this OnData failed (transient): the delivery must fail
-		// visibly and the request must stay outstanding, so that the node is asked for again
-		i := rn.target.writes - writesB
+	objFault := curObjFaults != nil && curObjFaults.fired > objFiredB
+	if rn.target.faults > faultsB || objFault {
+		// a database write, or a requester, failed inside this OnData (transient): the delivery
+		// must fail visibly and the request must stay outstanding with its requesters, so that
+		// the node is asked for again and then resolved exactly as it would have been
+		i, k1 := rn.target.writes-writesB, 0
+		if objFault {
+			// the failing requester had stored the value and registered every reference that
+			// precedes the value object's data reference
+			i = curObjFaults.firedAfter
+			k1 = len(w.pkids[p]) // = index of the data reference + 1
+			for j, c := range w.pkids[p] {
+				if c.bk == 1 {
+					k1 = j + 1
+					break
+				}
+			}
+		}
+		if newk != 0 || i > 0 {
+			rn.partial[h] = true
+		}
 		rn.st.faults++
 		if err == nil || err == merkle.ErrNoRequester || err == merkle.ErrNoHasher {
 			rn.failf("a failing database write was not reported: OnData returned %v", err)
@@ -855,11 +939,17 @@ func (rn *runner) deliver(p int, bid db.BucketID, kind string) {
 		if res != resB || un < unB {
 			rn.failf("a failed delivery changed the counts: resolved %d -> %d, unresolved %d -> %d", resB, res, unB, un)
 		}
-		if i == 0 && (newk != 0 || !sameReqs(before, after)) {
+		if i == 0 && !objFault && (newk != 0 || !sameReqs(before, after)) {
 			rn.failf("a delivery whose first write failed changed the builder")
 		}
-		rn.emit(opFail, p, i, un, res, newk)
+		rn.emit(opFail, p, i, k1, un, res, newk)
 		rn.checkDoneComplete("after a failed OnData")
+		if f := rn.startAfterFail; f != nil {
+			// another trie (of another kind) is resolved on the same builder before the failed
+			// node is delivered again
+			rn.startAfterFail = nil
+			f()
+		}
 		return
 	}
 	if bid.Hasher() == nil {
@@ -1016,7 +1106,7 @@ func (rn *runner) sweep(where string) {
 			if _, ok := rn.closure[x]; !ok {
 				rn.failf("%s: outstanding request (%d,%x) is not part of the trusted state", where, x.bk, q.key)
 			}
-			if _, ok := rn.present[x]; ok {
+			if _, ok := rn.present[x]; ok && !rn.partial[x.hid] {
 				rn.failf("%s: outstanding request (%d,%x) is already stored", where, x.bk, q.key)
 			}
 		}
@@ -1077,7 +1167,7 @@ func (rn *runner) compareTrie(dbase db.Database, root []byte, depth int, where s
 		return
 	}
 	if perr := hxlib.Catch(func() {
-		if rn.objMode {
+		if rn.objMode && !st.raw {
 			t := trie_manager.NewImmutableForObject(dbase, root, objType)
 			if !bytes.Equal(t.Hash(), root) {
 				rn.failf("%s: rebuilt trie has root %x, trusted %x", where, t.Hash(), root)
@@ -1211,9 +1301,11 @@ func runOne(seed int64, noCoq bool) (coq, kind, desc, oracle string, st runStats
 	secondRoot := withOld && !preloadOld    // ... or it is synced as a second root later
 	directReq := objMode && r.Intn(5) == 0  // an AddRequest for one BytesByHash datum
 	midFlush := !raw && r.Intn(6) == 0
-	order := r.Intn(3)                         // 0 front-biased, 1 uniform, 2 back-biased
-	faulty := raw && !spMode && r.Intn(4) != 0 // transient write errors of the target inside OnData
-	flushFault := !raw && r.Intn(4) == 0       // one transient write error inside the first Flush(true)
+	order := r.Intn(3)                                    // 0 front-biased, 1 uniform, 2 back-biased
+	faulty := raw && !spMode && r.Intn(4) != 0            // transient write errors of the target inside OnData
+	flushFault := !raw && r.Intn(4) == 0                  // one transient write error inside the first Flush(true)
+	objFaulty := objMode && !spMode && r.Intn(3) == 0     // transient errors of a value object's Resolve
+	bytesRoot := objMode && (objFaulty || r.Intn(4) == 0) // a root of the other trie kind on the same builder
 
 	w := newWorld(objMode)
 	src := &source{objMode: objMode, d: newRecDB(), tries: map[string]*srcTrie{}, datas: map[string][]byte{}}
@@ -1227,6 +1319,10 @@ func runOne(seed int64, noCoq bool) (coq, kind, desc, oracle string, st runStats
 		mainT = src.genTrie(r, 0, 1+nEntries/6, pool, oldT)
 	} else {
 		mainT = src.genTrie(r, 0, nEntries, pool, nil)
+	}
+	var bytesT *srcTrie
+	if bytesRoot {
+		bytesT = src.genBytesTrie(r, 3+r.Intn(30))
 	}
 	// another state, for foreign nodes
 	fsrc := &source{objMode: objMode, d: newRecDB(), tries: map[string]*srcTrie{}, datas: map[string][]byte{}}
@@ -1246,15 +1342,17 @@ func runOne(seed int64, noCoq bool) (coq, kind, desc, oracle string, st runStats
 
 	rn := &runner{r: r, w: w, src: src, objMode: objMode, raw: raw, spMode: spMode, target: newRecDB(),
 		closure: map[ref]int{}, preload: map[ref]int{}, present: map[ref]int{}, requested: map[ref]bool{},
-		delivered: map[int]bool{}, noCoq: noCoq, flushFault: flushFault}
+		delivered: map[int]bool{}, noCoq: noCoq, flushFault: flushFault,
+		rawRoots: map[int]bool{}, partial: map[int]bool{}}
 	rn.target.failSet = map[int]bool{}
+	curObjFaults = nil
 
 	if preloadOld {
 		// the target is the product of a COMPLETE earlier sync of the older version (a real
 		// builder, answered honestly, flushed): closed under references, as the theorems require
 		first := &runner{r: r, w: w, src: src, objMode: objMode, target: rn.target,
 			closure: map[ref]int{}, preload: map[ref]int{}, present: map[ref]int{}, requested: map[ref]bool{},
-			delivered: map[int]bool{}, noCoq: true}
+			delivered: map[int]bool{}, noCoq: true, rawRoots: map[int]bool{}, partial: map[int]bool{}}
 		first.builder = merkle.NewBuilder(rn.target)
 		for i, id := range bucketIDs {
 			first.view[i], _ = first.builder.Database().GetBucket(id)
@@ -1279,6 +1377,15 @@ func runOne(seed int64, noCoq bool) (coq, kind, desc, oracle string, st runStats
 		rn.target.writes = 0
 	}
 	rn.pre = rn.prePacked()
+	curObjFaults = nil
+	if objFaulty {
+		curObjFaults = &objFaults{failAt: map[int]bool{}}
+		nd := len(src.d.bucket(db.BytesByHash).content) + 2
+		for k := 1 + r.Intn(3); k > 0; k-- {
+			curObjFaults.failAt[1+r.Intn(nd)] = true
+		}
+	}
+	defer func() { curObjFaults = nil }()
 	if raw {
 		rn.builder = merkle.NewBuilderWithRawDatabase(rn.target)
 		rn.emit(opRaw)
@@ -1302,7 +1409,20 @@ func runOne(seed int64, noCoq bool) (coq, kind, desc, oracle string, st runStats
 		}
 	}
 	budget := 60*srcN + 400
-	startSecondAt, directAt, flushAt := -1, -1, -1
+	startSecondAt, directAt, flushAt, bytesAt := -1, -1, -1, -1
+	startBytes := func() {
+		bytesAt = -1
+		rn.startAfterFail = nil
+		x := ref{0, w.hid(bytesT.root)}
+		rn.rawRoots[x.hid] = true
+		rn.start(x, false)
+	}
+	if bytesRoot {
+		bytesAt = r.Intn(2*len(genuine) + 2)
+		if objFaulty && r.Intn(4) != 0 {
+			rn.startAfterFail = startBytes
+		}
+	}
 	if secondRoot {
 		startSecondAt = r.Intn(2*srcN + 2)
 	}
@@ -1316,7 +1436,7 @@ func runOne(seed int64, noCoq bool) (coq, kind, desc, oracle string, st runStats
 	sweepsLeft := 1
 	firstDone := false
 
-	pendingExtras := func() bool { return startSecondAt >= 0 || directAt >= 0 }
+	pendingExtras := func() bool { return startSecondAt >= 0 || directAt >= 0 || bytesAt >= 0 }
 
 	for iter := 0; iter < budget && rn.fail == ""; iter++ {
 		if startSecondAt >= 0 && iter >= startSecondAt {
@@ -1328,6 +1448,10 @@ func runOne(seed int64, noCoq bool) (coq, kind, desc, oracle string, st runStats
 			directAt = -1
 			ks := sortedKeys(src.d.bucket(db.BytesByHash).content)
 			rn.start(ref{1, w.hid([]byte(ks[r.Intn(len(ks))]))}, true)
+			continue
+		}
+		if bytesAt >= 0 && iter >= bytesAt {
+			startBytes()
 			continue
 		}
 		if flushAt >= 0 && iter >= flushAt {
@@ -1345,8 +1469,10 @@ func runOne(seed int64, noCoq bool) (coq, kind, desc, oracle string, st runStats
 				// nothing to answer: bring the next scheduled start forward
 				if startSecondAt >= 0 {
 					startSecondAt = iter + 1
-				} else {
+				} else if directAt >= 0 {
 					directAt = iter + 1
+				} else {
+					bytesAt = iter + 1
 				}
 				firstDone = false
 				continue
@@ -1424,7 +1550,7 @@ func runOne(seed int64, noCoq bool) (coq, kind, desc, oracle string, st runStats
 	for _, f := range []struct {
 		on bool
 		s  string
-	}{{raw, "raw"}, {faulty, "write-faults"}, {flushFault, "flush-fault"}, {preloadOld, "preloaded"}, {secondRoot, "two-roots"}, {directReq, "addrequest"}, {midFlush, "midflush"}} {
+	}{{raw, "raw"}, {faulty, "write-faults"}, {objFaulty, "requester-faults"}, {bytesRoot, "bytes-root"}, {flushFault, "flush-fault"}, {preloadOld, "preloaded"}, {secondRoot, "two-roots"}, {directReq, "addrequest"}, {midFlush, "midflush"}} {
 		if f.on {
 			flags = append(flags, f.s)
 		}
@@ -1670,7 +1796,7 @@ func runInterrupted(seed int64) string {
 	mk := func() *runner {
 		rn := &runner{r: r, w: w, src: src, objMode: true, target: target,
 			closure: map[ref]int{}, preload: map[ref]int{}, present: map[ref]int{}, requested: map[ref]bool{},
-			delivered: map[int]bool{}, noCoq: true}
+			delivered: map[int]bool{}, noCoq: true, rawRoots: map[int]bool{}, partial: map[int]bool{}}
 		rn.builder = merkle.NewBuilder(target)
 		for i, id := range bucketIDs {
 			rn.view[i], _ = rn.builder.Database().GetBucket(id)
